@@ -133,7 +133,9 @@ def _case(draw, maxdepth):
     form = draw(st.sampled_from(["string", "string", "ast", "callable", "callable"]))
     # history: typed queries built earlier in the same process, binding the free names as lambda parameters
     prelude = draw(st.lists(st.tuples(st.sampled_from(FREE_NAMES + [p]), st.sampled_from(["str", "dict", "class", "same-text"])).map(list), max_size=3))
-    return {"op": op, "param": p, "body": body, "form": form, "prelude": prelude}
+    # the module that holds the callable may have a variable spelled like the lambda's parameter (a coincidence: the lambda binds the name)
+    shadow = form == "callable" and draw(st.integers(0, 2)) == 0
+    return {"op": op, "param": p, "body": body, "form": form, "prelude": prelude, "shadow_global": shadow}
 
 
 def strategy(tier):
@@ -345,6 +347,9 @@ def check(case) -> Result:
             s = getattr(ds, op)(ast.parse(text, mode="eval").body)
         else:
             src = f"def build(ds):\n    return ds.{op}({text})\n"
+            if case.get("shadow_global"):
+                r.labels.append("module-global-spelled-like-the-parameter")
+                src = f"{p} = 2.5\n" + src
             with srcgen.module(src) as mod:
                 s = mod.build(ds)
     except ValueError as e:
